@@ -836,3 +836,201 @@ def c02_clockstep(model, meta):
 @search("c02:clockstep")
 def c02_clockstep_search(meta, seed, budget):
     yield {}
+
+
+# ---------------------------------------------------------------------------
+# C04: process-table histories on a fake procfs, checked against a reference model
+# ---------------------------------------------------------------------------
+
+class FakeTable:
+    def __init__(self, root):
+        self.root = root
+        self.tick = 1000
+        self.procs = {}          # pid -> start tick
+
+    def _write(self, pid):
+        d = os.path.join(self.root, str(pid))
+        os.makedirs(d, exist_ok=True)
+        with open(os.path.join(d, "stat"), "wb") as f:
+            f.write(_stat_with_start(pid, self.procs[pid], comm=b"p%d" % pid))
+        with open(os.path.join(d, "status"), "wb") as f:
+            f.write(b"Name:\tp%d\nTgid:\t%d\nPid:\t%d\nUid:\t0\t0\t0\t0\nGid:\t0\t0\t0\t0\nThreads:\t1\n" % (pid, pid, pid))
+
+    def spawn(self, pid):
+        if pid in self.procs:
+            return False
+        self.tick += 7
+        self.procs[pid] = self.tick
+        self._write(pid)
+        return True
+
+    def exit(self, pid):
+        if pid not in self.procs:
+            return False
+        del self.procs[pid]
+        shutil.rmtree(os.path.join(self.root, str(pid)), ignore_errors=True)
+        return True
+
+    def reuse(self, pid):
+        if pid not in self.procs:
+            return False
+        self.exit(pid)
+        return self.spawn(pid)
+
+
+@runner("c04:history")
+def c04_history(model, meta):
+    import psutil
+    from psutil import _pslinux
+    events = model["events"]
+    problems = []
+    d = tempfile.mkdtemp(prefix="vfproc_")
+    old = psutil.PROCFS_PATH
+    try:
+        with open(os.path.join(d, "stat"), "wb") as f:
+            f.write(b"cpu  1 2 3 4 5 6 7 8 9 10\nbtime 1700000000\n")
+        psutil.PROCFS_PATH = d
+        _pslinux.BOOT_TIME = None
+        psutil._pmap.clear()
+        psutil._pids_reused.clear()
+        tb = FakeTable(d)
+        tb.spawn(1)
+        handles = []                   # (obj, pid, tick it was created for)
+        cached = {}                    # reference: pid -> (obj, tick) expected in the cache
+        pending_reused = set()         # PIDs found recycled by is_running() since the last pass
+        known = []                     # occurrences of the recorded finding C04-reused-skip
+        for ev in events:
+            kind = ev[0]
+            if kind in ("spawn", "exit", "reuse"):
+                getattr(tb, kind)(ev[1])
+            elif kind == "clear":
+                psutil.process_iter.cache_clear()
+                cached = {}
+                if psutil._pmap:
+                    problems.append("cache_clear() left entries behind")
+            elif kind == "isrun":
+                for obj, pid, tick in handles:
+                    alive = tb.procs.get(pid) == tick
+                    r = obj.is_running()
+                    if r != alive:
+                        problems.append(f"is_running() == {r} for pid {pid} (process {'alive' if alive else 'gone/replaced'})")
+                    if not alive and pid in cached and cached[pid][0] is obj:
+                        del cached[pid]        # found recycled/gone: its entry must be replaced / dropped
+                        if pid in tb.procs:
+                            pending_reused.add(pid)
+            elif kind in ("iter", "iter_partial", "iter_attrs"):
+                attrs = ["pid", "name"] if kind == "iter_attrs" else None
+                gen = psutil.process_iter(attrs)
+                got = []
+                limit = ev[1] if kind == "iter_partial" else 10 ** 6
+                try:
+                    for p in gen:
+                        got.append(p)
+                        if len(got) >= limit:
+                            break
+                finally:
+                    gen.close()
+                listed = sorted(tb.procs)
+                pids = [p.pid for p in got]
+                want = listed[:limit]
+                skipped = set()
+                if pids != want:
+                    missing = [x for x in listed if x not in pids]
+                    if kind != "iter_partial" and pids == [x for x in listed if x not in pending_reused] and \
+                            set(missing) <= pending_reused:
+                        # recorded finding: a PID found recycled by is_running() is dropped from the cache *after*
+                        # the new PIDs were worked out, so it is not yielded at all in that one pass
+                        known.append(f"{kind}: recycled PIDs {missing} not yielded in the pass following is_running()")
+                        skipped = set(missing)
+                    else:
+                        problems.append(f"{kind}: yielded {pids}, listed (ascending) {want}")
+                if kind != "iter_partial" or True:
+                    pending_reused -= set(pids) | skipped
+                for p in got:
+                    tick = tb.procs.get(p.pid)
+                    if kind == "iter_attrs" and set(getattr(p, "info", {})) != {"pid", "name"}:
+                        problems.append(f"info keys {sorted(getattr(p, 'info', {}))} != ['name', 'pid']")
+                    prev = cached.get(p.pid)
+                    if prev is not None and prev[1] == tick and prev[0] is not p:
+                        problems.append(f"pid {p.pid} stayed listed but a different object was yielded")
+                    if prev is not None and prev[1] != tick and prev[0] is p and any(
+                            h[0] is p and False for h in handles):
+                        pass
+                    if not any(h[0] is p for h in handles):
+                        handles.append((p, p.pid, tick))
+                    if prev is None or prev[0] is not p:
+                        # a new cache entry: it must describe the process that owns the PID now
+                        if p._ident[1] is not None and abs(p._ident[1] - tick / _pslinux.CLOCK_TICKS) > 1e-6 and \
+                                abs(p._ident[1] - (tick / _pslinux.CLOCK_TICKS + 1700000000)) > 1e-6:
+                            problems.append(f"fresh object for pid {p.pid} does not identify the current owner")
+                        cached[p.pid] = (p, tick)
+                if kind != "iter_partial":
+                    for pid in list(cached):
+                        if pid not in tb.procs:
+                            del cached[pid]
+                    if set(psutil._pmap) != set(listed) - skipped:
+                        problems.append(f"cache holds {sorted(psutil._pmap)} after a full pass over {listed}")
+        # at the end: handles of live processes answer True, the others False
+        for obj, pid, tick in handles:
+            alive = tb.procs.get(pid) == tick
+            r = obj.is_running()
+            if r != alive:
+                problems.append(f"final is_running() == {r} for pid {pid} ({'alive' if alive else 'gone/replaced'})")
+    except Exception as e:  # noqa: BLE001
+        import traceback
+        problems.append("exception: " + traceback.format_exc()[-600:])
+    finally:
+        psutil.PROCFS_PATH = old
+        psutil._pmap.clear()
+        psutil._pids_reused.clear()
+        _pslinux.BOOT_TIME = None
+        shutil.rmtree(d, ignore_errors=True)
+    tag = None
+    if not problems and known:
+        problems = known
+        tag = "reused-pid-skipped-one-pass"
+    return {"env": {}, "result": problems[:4], "exc": None, "verdict": bool(problems), "events": events, "tag": tag}
+
+
+C04_EVENTS = [("spawn", 2), ("spawn", 3), ("exit", 2), ("exit", 3), ("reuse", 2), ("reuse", 3), ("iter",),
+              ("iter_partial", 1), ("isrun",), ("clear",), ("iter_attrs",)]
+
+
+@search("c04:history")
+def c04_history_search(meta, seed, budget):
+    import itertools
+    import random
+    n = 0
+    for ln in range(1, 4):
+        for tup in itertools.product(C04_EVENTS, repeat=ln):
+            if not any(e[0].startswith("iter") for e in tup):
+                continue
+            yield {"events": [list(e) for e in tup] + [["iter"]]}
+            n += 1
+            if n >= budget:
+                return
+    rng = random.Random(seed)
+    while n < budget:
+        yield {"events": [list(rng.choice(C04_EVENTS)) for _ in range(rng.randrange(4, 8))] + [["iter"]]}
+        n += 1
+
+
+@runner("c04:pid_exists")
+def c04_pid_exists(model, meta):
+    from psutil import _psposix
+    pid = int(model.get("pid", 0))
+    calls = []
+    with mock.patch.object(os, "kill", lambda p, s: (calls.append((p, s)), os_kill_model(p, model))[1]):
+        try:
+            res, exc = _psposix.pid_exists(pid), None
+        except Exception as e:  # noqa: BLE001
+            res, exc = None, e
+    return {"env": {"pid": pid, "alive": bool(model.get("kill0_finds_process", False))}, "result": res, "exc": exc}
+
+
+def os_kill_model(p, model):
+    if not -2 ** 31 <= p < 2 ** 31:
+        raise OverflowError("signed integer is greater than maximum")
+    if not model.get("kill0_finds_process", False):
+        raise ProcessLookupError(3, "No such process")
+    return None
